@@ -490,7 +490,7 @@ func opaqueNil(a bOpaque) (*Term, bool) {
 	if _, isMap := a.typ.Underlying().(*types.Map); !isMap {
 		return nil, false
 	}
-	if a.name == "make" {
+	if isMadeMap(a.name) {
 		return TFalse, true
 	}
 	if a.name == "zero" {
